@@ -404,6 +404,16 @@ Proof.
   - rewrite grid_rows_length. exact Hws.
 Qed.
 
+Lemma somes_length {A} (l : list (option A)) : length (somes l) <= length l.
+Proof. induction l as [|[x|] t IH]; cbn [somes length]; lia. Qed.
+
+(* a cell has at most two neighbours per axis, whatever the input *)
+Theorem grid_degree_bound dims v : length (grid_neighbors dims v) <= 2 * length dims.
+Proof.
+  unfold grid_neighbors. cbv zeta.
+  eapply Nat.le_trans; [apply somes_length|]. rewrite map_length, seq_length. lia.
+Qed.
+
 Example grid_neighbors_generic_nonvacuous :
   grid_neighbors [2; 3; 4; 5] 77 = [76; 75; 83; 53; 101]
   /\ map (position_of [2; 3; 4; 5]) [76; 75; 83; 53; 101]
